@@ -22,7 +22,7 @@ RULE = (
     "clock takes >=3 distinct values and at least one dispatch leaves it "
     "unchanged."
 )
-BUDGET = {"quick": 1000, "thorough": 5000}
+BUDGET = {"quick": 1000, "thorough": 10000}
 ASSUMPTIONS = [
     "with a filter installed only positive durations are generated (the statement's domain)",
 ]
